@@ -1,15 +1,29 @@
 #!/bin/sh
-# usage: seedtest.sh <patch.diff> <Cnn> [tier] [more check ids...]  — apply a seeded change to /repo, run checks, undo.
+# usage: seedtest.sh <patch.diff> <Cnn> [tier] [more check ids...]
+# Runs the named checks against the repository *with the seeded change applied*.
+# Default: a scratch git worktree of /repo HEAD (outside /repo and /verif) gets the patch and the checks are
+# pointed at it (VERIF_REPO_SRC / VERIF_REPO_ROOT), so /repo itself is never touched and other runs are not
+# disturbed.  With SEED_IN_PLACE=1 the patch is applied to /repo itself and undone straight afterwards.
 patch="$1"; shift
 tier=quick
-cd /repo || exit 2
-if [ -n "$(git status --porcelain)" ]; then echo "REPO DIRTY - refusing"; exit 2; fi
-git apply "$patch" || { echo "patch does not apply"; exit 2; }
-trap 'git -C /repo checkout -- . ; git -C /repo clean -fdq src' EXIT
+if [ "${SEED_IN_PLACE:-0}" = "1" ]; then
+  cd /repo || exit 2
+  if [ -n "$(git status --porcelain)" ]; then echo "REPO DIRTY - refusing"; exit 2; fi
+  git apply "$patch" || { echo "patch does not apply"; exit 2; }
+  trap 'git -C /repo checkout -- . ; git -C /repo clean -fdq src' EXIT
+  envs=""
+else
+  wt=$(mktemp -d /tmp/wts-XXXXXX); rmdir "$wt"
+  git -C /repo worktree add -q --detach "$wt" HEAD || exit 2
+  trap 'git -C /repo worktree remove --force "$wt" 2>/dev/null; rm -rf "$wt"' EXIT
+  git -C "$wt" apply "$patch" || { echo "patch does not apply"; exit 2; }
+  export VERIF_REPO_SRC="$wt/src" VERIF_REPO_ROOT="$wt"
+fi
 cd /verif
 for id in "$@"; do
   case "$id" in quick|thorough) tier=$id; continue;; esac
-  out=$(VERIF_SCRATCH=/verif/.scratch ./check "$id" $tier 2>&1 | cut -c1-220)
+  out=$(VERIF_SCRATCH=/verif/.scratch/seed-$$ VERIF_EVIDENCE_DIR=/verif/.scratch/seed-$$/evidence ./check "$id" $tier 2>&1 | cut -c1-220)
   echo "$out" | grep -E "VIOLATION" | head -3
   echo "$out" | grep -E "HELD|INCONCLUSIVE" | head -1
 done
+rm -rf /verif/.scratch/seed-$$
